@@ -860,10 +860,8 @@ class t2grid(object):
                 present_dirns = [1,2,3]; present_dirns.remove(dirn)
                 d = ob.volume
                 for pd in present_dirns:
-                    con = [con for con in ob.connection_name if
-                           grid.connection[con].direction == pd][0]
-                    i = con_name_index(con, ob.name)
-                    d /= (2. * grid.connection[con].distance[i])
+                    # (origin block is in the bottom layer, listed last in direction 3)
+                    d /= spacings[pd][-1] if pd == 3 else spacings[pd][0]
                 spacings[dirn].append(d)
             elif num_missing == 2:
                 raise Exception("Mesh appears to be 1-D: can't reconstruct geometry.")
